@@ -104,12 +104,48 @@ Definition gate (d : db) (chan : option str) (plugin canon : str) (command : lis
 
 (* ---- what the caller can observe of one _callCommand ---- *)
 Inductive event :=
-| EvNoCap (v : pyv)        (* irc.errorNoCapability(v) -> one error reply *)
+| EvNoCap (v : pyv)        (* irc.errorNoCapability(v) aborted the command: one error reply, none when the configured text is blank *)
 | EvError                  (* callbacks.Error from a non-gating converter -> irc.error(str(e)) *)
 | EvHelp                   (* ArgumentError / GetoptError -> the command's help *)
 | EvInternal (e : exn)     (* uncaught exception -> replyError *)
 | EvFlood                  (* Owner.doPrivmsg's flood notice *)
 | EvBody.                  (* the command body is entered *)
+
+(* ---- RichReplyMethods._error / errorNoCapability (src/callbacks.py:552-580) ----
+   [text] = the configured supybot.replies.noCapability / genericNoCapability message after `v %= capability`
+   and __makeReply (an input; it is blank exactly when the operator configured a blank message).
+     def _error(self, s, Raise=False, **kwargs):
+         if Raise: raise Error(s)
+         else: return self.error(s, **kwargs)
+     def errorNoCapability(self, capability, s='', **kwargs):
+         if 'Raise' not in kwargs: kwargs['Raise'] = True
+         ...
+         if s: return self._error(s, **kwargs)
+         elif kwargs['Raise']: raise Error() *)
+Inductive enc_out :=
+| EncRaise (text : str)      (* raise Error(text): the caller is aborted *)
+| EncReplied (text : str)    (* self.error(text) was sent and the method RETURNED: the caller goes on *)
+| EncNothing.                (* returned without doing anything: the caller goes on *)
+
+Definition error_ (text : str) (raise_ : bool) : enc_out :=
+  if raise_ then EncRaise text else EncReplied text.
+
+(* raise_kw: None = the call site gives no Raise keyword (the method then sets it to True) *)
+Definition errorNoCapability (text : str) (raise_kw : option bool) : enc_out :=
+  let r := match raise_kw with None => true | Some b => b end in
+  if nonempty text then error_ text r
+  else if r then EncRaise [] else EncNothing.
+
+(* an in-body check  `if not ircdb.checkCapability(prefix, cap): irc.errorNoCapability(cap, Raise=kw)`
+   followed by the rest of the body (its effects are [rest]) *)
+Inductive bev := BDenied (text : str) | BReply (text : str) | BEffect (n : N).
+Definition inbody_check (holds_cap : bool) (text : str) (raise_kw : option bool) (rest : list bev) : list bev :=
+  if holds_cap then rest
+  else match errorNoCapability text raise_kw with
+       | EncRaise t => [BDenied t]               (* Error propagates to _callCommand: irc.error(t), nothing else *)
+       | EncReplied t => BReply t :: rest        (* falls through *)
+       | EncNothing => rest                      (* falls through *)
+       end.
 
 (* ---- converters ---- *)
 Record cstate := CS { s_chan : option str;     (* state.channel *)
@@ -175,15 +211,19 @@ Definition gate_cap (msgchan : option str) (g : gateconv) (s : cstate) : cres * 
       end
   end.
 
-(* state.errorNoCapability(cap, Raise=True): errored := True, raise Error *)
-Definition run_gate (d : db) (msgchan : option str) (g : gateconv) (s : cstate) : cres :=
+Definition run_gate (d : db) (msgchan : option str) (nc : str) (g : gateconv) (s : cstate) : cres :=
   match gate_cap msgchan g s with
   | (CFail x s', _) => CFail x s'
   | (COk s', Raise e) => CFail (XPy e) s'
   | (COk s', Ok cap) =>
       match checkCapability d cap (gate_flags g) with
       | Ok true => COk s'
-      | Ok false => CFail (XErr (EvNoCap (PStr cap))) (CS (s_chan s') true)
+      | Ok false =>
+          (* state.errorNoCapability(cap, Raise=True): State.__getattr__ sets errored, then the irc method runs *)
+          match errorNoCapability nc (Some true) with
+          | EncRaise _ => CFail (XErr (EvNoCap (PStr cap))) (CS (s_chan s') true)
+          | _ => COk (CS (s_chan s') true)         (* it returned: the converter returns too, errored stays set *)
+          end
       | Raise e => CFail (XPy e) s'
       end
   end.
@@ -213,45 +253,45 @@ Fixpoint loop_it (f : cstate -> cres) (coe : bool) (s : cstate) (k : nat) (st : 
       end
   end.
 
-Fixpoint run_conv (d : db) (msgchan : option str) (c : conv) (s : cstate) : cres :=
+Fixpoint run_conv (d : db) (msgchan : option str) (nc : str) (c : conv) (s : cstate) : cres :=
   match c with
-  | Gate g => run_gate d msgchan g s
+  | Gate g => run_gate d msgchan nc g s
   | Opaque o => run_opaque o s
   | GetChan a => getChannel_conv msgchan a s
   | Optional c' =>
-      match run_conv d msgchan c' s with
+      match run_conv d msgchan nc c' s with
       | COk s' => COk s'
       | CFail XIdx s' => COk s'                          (* additional's handler *)
       | CFail (XErr _) s' | CFail XArg s' => COk (CS (s_chan s') false)
       | CFail x s' => CFail x s'
       end
   | Additional c' =>
-      match run_conv d msgchan c' s with
+      match run_conv d msgchan nc c' s with
       | CFail XIdx s' => COk s'
       | r => r
       end
   | First2 a b =>
-      match run_conv d msgchan a s with
+      match run_conv d msgchan nc a s with
       | COk s' => COk s'
-      | CFail _ s' => run_conv d msgchan b (CS (s_chan s') false)
+      | CFail _ s' => run_conv d msgchan nc b (CS (s_chan s') false)
       end
   | Rest hasargs c' =>
       if hasargs then
-        match run_conv d msgchan c' s with
+        match run_conv d msgchan nc c' s with
         | COk s' => COk s'
         | CFail _ s' => COk s'
         end
       else CFail XIdx s
-  | Loop n coe c' => loop_it (run_conv d msgchan c') coe s n s
+  | Loop n coe c' => loop_it (run_conv d msgchan nc c') coe s n s
   end.
 
 (* Spec.__call__: converters in order; IndexError becomes ArgumentError *)
-Fixpoint run_spec (d : db) (msgchan : option str) (l : list conv) (s : cstate) : cres :=
+Fixpoint run_spec (d : db) (msgchan : option str) (nc : str) (l : list conv) (s : cstate) : cres :=
   match l with
   | [] => COk s
   | c :: l' =>
-      match run_conv d msgchan c s with
-      | COk s' => run_spec d msgchan l' s'
+      match run_conv d msgchan nc c s with
+      | COk s' => run_spec d msgchan nc l' s'
       | CFail XIdx s' => CFail XArg s'
       | r => r
       end
@@ -270,23 +310,30 @@ Definition handler (x : cexn) : event :=
    wrap(f, spec), extra = "arguments remain and not allowExtra" (input) *)
 Definition method := option (list conv * bool).
 
-Definition call_method (d : db) (msgchan : option str) (m : method) : list event :=
+Definition call_method (d : db) (msgchan : option str) (nc : str) (m : method) : list event :=
   match m with
   | None => [EvBody]
   | Some (spec, extra) =>
-      match run_spec d msgchan spec (CS None false) with
+      match run_spec d msgchan nc spec (CS None false) with
       | COk s => if extra then [EvHelp] else if s_err s then [] else [EvBody]
       | CFail x _ => [handler x]
       end
   end.
 
 (* Commands._callCommand; pre_blocked = some pre_command_callback returned True *)
-Definition callCommand_trace (d : db) (chan : option str) (plugin canon : str) (command : list str)
+(* irc.errorNoCapability(cap) ; return   -- in _callCommand, after a truthy checkCommandCapability *)
+Definition gate_refusal (nc : str) (v : pyv) : list event :=
+  match errorNoCapability nc None with
+  | EncNothing => []                (* it returned silently; the explicit `return` still ends the command *)
+  | _ => [EvNoCap v]
+  end.
+
+Definition callCommand_trace (d : db) (chan : option str) (nc : str) (plugin canon : str) (command : list str)
            (pre_blocked : bool) (m : method) : list event :=
   match gate d chan plugin canon command with
   | Raise e => [EvInternal e]
-  | Ok (Some v) => [EvNoCap v]
-  | Ok None => if pre_blocked then [] else call_method d chan m
+  | Ok (Some v) => gate_refusal nc v
+  | Ok None => if pre_blocked then [] else call_method d chan nc m
   end.
 
 (* ---- DefaultCapabilities.setValue ---- *)
@@ -412,14 +459,14 @@ Definition gDsp (v : value) : dsp :=
 
 (* run (op payload):
    0: checkCommandCapability (db chan name)                 -> res pyv
-   1: _callCommand (db chan plugin canon command pre method) -> events
+   1: _callCommand (db chan plugin canon command pre method nctext) -> events
    2: setValues (init ((v allow) ...))                       -> set
    3: checkIgnored (ign)                                     -> res bool
    4: pluginCall (db dsp (db chan plugin canon command pre method)) -> res events
    5: ccc_list (db chan plugin names)                        -> res pyv *)
 Definition run (v : value) : value :=
   let p := nth_v 1 v in
-  let call q := callCommand_trace (gDb (nth_v 0 q)) (gO gS (nth_v 1 q)) (gS (nth_v 2 q)) (gS (nth_v 3 q))
+  let call q := callCommand_trace (gDb (nth_v 0 q)) (gO gS (nth_v 1 q)) (gS (nth_v 7 q)) (gS (nth_v 2 q)) (gS (nth_v 3 q))
                                   (gLS (nth_v 4 q)) (gB (nth_v 5 q)) (gMethod (nth_v 6 q)) in
   match gN (nth_v 0 v) with
   | 0 => vR vPyv (checkCommandCapability (gDb (nth_v 0 p)) (gO gS (nth_v 1 p)) (gS (nth_v 2 p)))
@@ -428,5 +475,9 @@ Definition run (v : value) : value :=
   | 3 => vR vB (checkIgnored (gIgn p))
   | 4 => vR vEvents (pluginCall (gDb (nth_v 0 p)) (gDsp (nth_v 1 p)) (call (nth_v 2 p)))
   | 5 => vR vPyv (ccc_list (gDb (nth_v 0 p)) (gO gS (nth_v 1 p)) (gS (nth_v 2 p)) (gLS (nth_v 3 p)))
+  | 6 => (* errorNoCapability (text raise_kw) -> (0 text) raise | (1 text) replied+returned | (2) returned *)
+         match errorNoCapability (gS (nth_v 0 p)) (gO gB (nth_v 1 p)) with
+         | EncRaise t => L [I 0%Z; vS t] | EncReplied t => L [I 1%Z; vS t] | EncNothing => L [I 2%Z]
+         end
   | _ => L []
   end.
